@@ -380,6 +380,16 @@ def c15(tier, seed, **kw):
         nontrivial=lambda b: True,
         project=lambda r: project_generic(r, ("d regs", "d area", "d misc")),
         impl_checks=static_elf_check)
+    # known findings: replay each witness; report it only while the well-formed file is still refused
+    klines = []
+    for f in axv.load_known():
+        if "C15" in f.get("properties", []) and f.get("status") == "open" and f.get("witness"):
+            wi, _ = axv.run_pair(harnesses()["release"], f["witness"], False, False, "C15-kf")
+            r = next(iter(wi.values()), [])
+            first = next((l for l in r if l.startswith("r ")), "")
+            if not first.startswith("r ok"):
+                klines.append("%s %s" % (f["id"], f["what"][:160]))
+    res["known"] = klines
     return res
 
 
